@@ -3,6 +3,7 @@ Line-protocol driver: one request per line in, one canonical answer per line out
 Imports the model only (core Lean), so it links as a `lean_exe`.
 -/
 import HpxVerif.Model.Bits
+import HpxVerif.Model.Bmoc
 
 namespace Hpx.Driver
 
@@ -35,10 +36,91 @@ def zocOp (st : St) (depth : Nat) (op : String) (args : List Nat) : String :=
     | "ij2j", [ij] => toString (Lut.ij2j c ij)
     | _, _ => "bad-op"
 
+/-- parse `dmax n e1 … en` from a token list; returns the BMOC and the remaining tokens -/
+def parseBmoc (toks : List Nat) : Option (Bmoc.BMOC × List Nat) :=
+  match toks with
+  | dmax :: n :: rest => if rest.length < n then none else some ({ dmax := dmax, entries := rest.take n }, rest.drop n)
+  | _ => none
+
+def bmocLine (b : Bmoc.BMOC) : String :=
+  b.entries.foldl (fun acc e => acc ++ " " ++ toString e) s!"{b.dmax} {b.entries.length}"
+
+def optBmocLine : Option Bmoc.BMOC → String
+  | some b => bmocLine b
+  | none => "panic"
+
+def bmocOp (op : String) (toks : List Nat) : String :=
+  match parseBmoc toks with
+  | none => "bad-op"
+  | some (a, rest) =>
+    match op with
+    | "not" => bmocLine a.not
+    | _ =>
+      match parseBmoc rest with
+      | none => "bad-op"
+      | some (b, _) =>
+        match op with
+        | "and" => bmocLine (a.and b)
+        | "or" => optBmocLine (a.or b)
+        | "xor" => optBmocLine (a.xor b)
+        | _ => "bad-op"
+
+def fixedOp (toks : List Nat) : String :=
+  match toks with
+  | depth :: full :: cap :: n :: hs =>
+    if hs.length != n then "bad-op" else
+    let rec go (s : Bmoc.FixedBuilder) : List Nat → Option Bmoc.FixedBuilder
+      | [] => some s
+      | h :: rest =>
+        -- `len == capacity` after the push (capacity = cap exactly for `Vec<u64>::with_capacity(cap)`, cap ≥ 1)
+        let willPush := match s.buffer.getLast? with | some l => l != h | none => true
+        let drainNow := willPush && s.buffer.length + 1 == cap
+        match s.push h drainNow with
+        | none => none
+        | some s' => go s' rest
+    match go (Bmoc.FixedBuilder.init depth (full == 1)) hs with
+    | none => "panic"
+    | some s =>
+      match s.toBmoc with
+      | none => "panic"
+      | some none => "none"
+      | some (some b) => bmocLine b
+  | _ => "bad-op"
+
+def viewsOp (toks : List Nat) : String :=
+  match parseBmoc toks with
+  | none => "bad-op"
+  | some (b, _) =>
+    let deep := Bmoc.deepSize b
+    let ranges := (Bmoc.toRanges b).foldl (fun acc r => acc ++ s!"{r.1}-{r.2},") ""
+    let it := b.cells.foldl (fun acc c => acc ++ s!"{c.depth}/{c.hash}/{if c.full then 1 else 0},") ""
+    let tail :=
+      if deep ≤ 3000 then
+        let flat := (Bmoc.flatIter b).foldl (fun acc h => acc ++ s!"{h},") ""
+        let cells := (Bmoc.flatIterCell b).foldl (fun acc c => acc ++ s!"{c.1}/{c.2.1}/{if c.2.2 then 1 else 0},") ""
+        s!" flat={flat} cells={cells}"
+      else " flat=skipped cells=skipped"
+    s!"deep={deep} ranges={ranges} iter={it}{tail}"
+
 def step (st : St) (line : String) : St × String :=
   match line.trimAscii.toString.splitOn " " with
   | ["profile", p, z] => ({ st with debug := p == "debug", bmi := z == "bmi2" }, "ok")
   | "zoc" :: d :: op :: args => (st, zocOp st (nat! d) op (args.map nat!))
+  | "bmoc" :: op :: toks => (st, bmocOp op (toks.map nat!))
+  | "fixed" :: toks => (st, fixedOp (toks.map nat!))
+  | "views" :: toks => (st, viewsOp (toks.map nat!))
+  | "pack" :: toks =>
+    (st, match parseBmoc (toks.map nat!) with
+      | some (b, _) => bmocLine { b with entries := Bmoc.pack b.dmax b.entries }
+      | none => "bad-op")
+  | "lower" :: nd :: packing :: toks =>
+    (st, match parseBmoc (toks.map nat!) with
+      | some (b, _) =>
+        let e := if nat! packing == 1 then Bmoc.pack b.dmax b.entries else b.entries
+        match Bmoc.toLowerDepth b.dmax (nat! nd) e with
+        | some l => bmocLine { dmax := nat! nd, entries := l }
+        | none => "panic"
+      | none => "bad-op")
   | ["touniq", d, h] => (st, optNat (toUniq (nat! d) (nat! h)))
   | ["touniqivoa", d, h] => (st, optNat (toUniqIvoa (nat! d) (nat! h)))
   | ["fromuniq", u] => (st, optPair (fromUniq (nat! u)))
